@@ -9,6 +9,7 @@
 //           steps; parked = a goroutine sits inside a gate minifier (possibly nested below the real
 //           HTML minifier) holding the registry's read lock while the other calls must complete
 //   stress  G goroutines x their call lists on one registry while some readers stay parked in gates
+//   cold    like stress without parked readers, run as the very first scenario of a fresh process (lazy initialisation)
 //   cmdin   AddCmd with $in/$out placeholders (own registry; pinned known defect, own process)
 //   htmldep shared *html.Minifier with the deprecated KeepConditionalComments (pinned known defect)
 //   shape   sequential, instrumented registry: the tree of nested registry calls each document causes
@@ -181,6 +182,7 @@ var (
 	reGate   = regexp.MustCompile("^x-gatere/")
 	reCmd    = regexp.MustCompile("^x-cmdre/")
 	reCmdIO  = regexp.MustCompile("^x-cmdio/")
+	reCmdOut = regexp.MustCompile("^x-cmdout/")
 	reUpper  = regexp.MustCompile("/x-upper$")
 	matchMTs = []string{"text/html", "text/css; inline=1", "image/svg+xml", "application/javascript", "text/x-ecmascript",
 		"application/ld+json", "application/rss+xml", "text/xml; charset=utf-8", "x-gatere/a; id=0", "x-cmdre/q", "a/x-upper", "text/plain", "x-cmd/cat"}
@@ -198,6 +200,8 @@ type reg struct {
 	cmd2 *exec.Cmd
 	cmd3 *exec.Cmd // $in placeholder
 	cmd4 *exec.Cmd // $in and $out placeholders
+	cmd5 *exec.Cmd // $out only: stdin in, result file out
+	cmd6 *exec.Cmd // $out.ext only, served by a pattern
 }
 
 // newReg builds the fully registered registry; the option structs are the SHARED values the
@@ -229,6 +233,8 @@ func newReg(optset int) *reg {
 	r.cmd2 = exec.Command("cat", "-")
 	r.cmd3 = exec.Command("cat", "$in.txt")
 	r.cmd4 = exec.Command("cp", "$in", "$out")
+	r.cmd5 = exec.Command("sh", "-c", "cat > $out")
+	r.cmd6 = exec.Command("sh", "-c", "tr a-z A-Z > $out.txt")
 	m := r.m
 	m.Add("text/html", r.html)
 	m.Add("text/css", r.css)
@@ -242,6 +248,8 @@ func newReg(optset int) *reg {
 	m.AddCmdRegexp(reCmd, r.cmd2)
 	m.AddCmd("x-cmd/in", r.cmd3)
 	m.AddCmdRegexp(reCmdIO, r.cmd4)
+	m.AddCmd("x-cmd/out", r.cmd5)
+	m.AddCmdRegexp(reCmdOut, r.cmd6)
 	m.AddFuncRegexp(reUpper, upperFn)
 	return r
 }
@@ -253,8 +261,9 @@ func cmdSnap(c *exec.Cmd) string {
 
 // snapshot renders every user-supplied option value (unexported fields included).
 func (r *reg) snapshot() string {
-	return fmt.Sprintf("html=%#v css=%#v svg=%#v js=%#v json=%#v xml=%#v cmd1=%s cmd2=%s cmd3=%s cmd4=%s url=%v",
-		*r.html, *r.css, *r.svg, *r.js, *r.json, *r.xml, cmdSnap(r.cmd1), cmdSnap(r.cmd2), cmdSnap(r.cmd3), cmdSnap(r.cmd4), r.m.URL)
+	return fmt.Sprintf("html=%#v css=%#v svg=%#v js=%#v json=%#v xml=%#v cmd1=%s cmd2=%s cmd3=%s cmd4=%s cmd5=%s cmd6=%s url=%v",
+		*r.html, *r.css, *r.svg, *r.js, *r.json, *r.xml, cmdSnap(r.cmd1), cmdSnap(r.cmd2), cmdSnap(r.cmd3), cmdSnap(r.cmd4),
+		cmdSnap(r.cmd5), cmdSnap(r.cmd6), r.m.URL)
 }
 
 // ---------------------------------------------------------------- one call through one entry point
@@ -749,6 +758,10 @@ func runShape(sc *Scenario) {
 		_, _, cmd4Fn := r.m.Match("x-cmdio/x")
 		m2.AddFunc("x-cmd/in", wrapRec("cmdin", cmd3Fn))
 		m2.AddFuncRegexp(reCmdIO, wrapRec("cmdin", cmd4Fn))
+		_, _, cmd5Fn := r.m.Match("x-cmd/out")
+		_, _, cmd6Fn := r.m.Match("x-cmdout/x")
+		m2.AddFunc("x-cmd/out", wrapRec("cmdin", cmd5Fn))
+		m2.AddFuncRegexp(reCmdOut, wrapRec("cmdin", cmd6Fn))
 		m2.AddFuncRegexp(reUpper, wrapRec("upper", upperFn))
 		recRoot, recStack = nil, nil
 		entry := "Bytes"
@@ -899,7 +912,9 @@ func main() {
 			runSeq(&sc)
 		case "sched":
 			runSched(&sc)
-		case "stress":
+		case "stress", "cold":
+			// cold: the same runner, but the scenario is the FIRST thing a fresh process does (no reference call, no
+			// other scenario before it): every goroutine makes its first call of a media type at the same moment
 			runStress(&sc)
 		case "cmdin":
 			runCmdIn(&sc)
